@@ -3,7 +3,8 @@
     published coefficients, soundness of the exact rational checkers of C13/Check.v, and the pattern-A facts
     about weighted_sum / nsupport / labels of C13/Model.v. *)
 From Coq Require Import List NArith ZArith QArith Qreals Reals Lra Lia Psatz Bool.
-From LinfaVerif Require Import Common.Num Common.NdSum Common.QF Common.LDL C13.Model C13.Spec C13.Check.
+From Coq Require Import Floats.
+From LinfaVerif Require Import Common.Num Common.NdSum Common.QF Common.LDL C13.Model C13.Spec C13.Check C13.Corr.
 Import ListNotations.
 Local Open Scope R_scope.
 
@@ -783,3 +784,53 @@ Qed.
 
 Example svc_certified_example : symb 6 exK = true /\ ldl_psd_shift 6 exK 0 = true.
 Proof. vm_compute. split; reflexivity. Qed.
+
+(** nu-SVR as implemented ignores nu (known finding F32): on four points of the line y = 2x with nu = 0.1, c = 1
+    the published coefficients have sum |b_i| > c nu n *)
+Definition exNuX : list (list float) := [[0]; [1]; [2]; [3]]%float.
+Definition exNuK : list (list float) := [[0;0;0;0]; [0;1;2;3]; [0;2;4;6]; [0;3;6;9]]%float.
+Definition exNuY : list float := [0; 2; 4; 6]%float.
+Definition exNu_fit : outcome :=
+  fit_nu_svr B64_ops infinity tiny64 eps64 400 exNuK exNuX exNuY 0x1.0624dd2f1a9fcp-10%float false true
+             0x1.999999999999ap-4%float 1%float.
+Definition nu_constraint_holds (nu c : float) (n : nat) (m : svm) : bool :=
+  Qleb (Qsum' (map Qabs' (map f64_Q (mAlpha m)))) (f64_Q c * f64_Q nu * inject_Z (Z.of_nat n)).
+Lemma nusvr_refuted_l : exists m, exNu_fit = Fitted m /\ nu_constraint_holds 0x1.999999999999ap-4%float 1%float 4 m = false.
+Proof. eexists. split; [vm_compute; reflexivity | vm_compute; reflexivity]. Qed.
+
+(** * the explicit hyperplane of the linear kernel *)
+Lemma zipp_axpy_R c : forall (w row x : list R), length w = length row ->
+  length (zipp (fun y xv => y + c * xv) w row) = length w /\
+  Rdot (zipp (fun y xv => y + c * xv) w row) x = Rdot w x + c * Rdot row x.
+Proof.
+  induction w as [|y w IH]; intros [|r row] x H; simpl in *; try discriminate; [split; [reflexivity|lra]|].
+  destruct x as [|xv x]; simpl.
+  - destruct (IH row [] ltac:(lia)) as [L _]. split; [lia|lra].
+  - destruct (IH row x ltac:(lia)) as [L E]. split; [lia|]. rewrite E. ring.
+Qed.
+
+Lemma hyperplane_fold_R (x : list R) : forall (l : list (R * (list R * R))) (w0 : list R),
+  Forall (fun e => length (fst (snd e)) = length w0) l ->
+  Rdot (fold_left (fun w (e : R * (list R * R)) =>
+                     let '(sg, (row, a)) := e in let c := sg * a in zipp (fun y xv => y + c * xv) w row) l w0) x
+  = Rdot w0 x + Rsum (map (fun e => fst e * snd (snd e) * Rdot (fst (snd e)) x) l).
+Proof.
+  induction l as [|[sg [row a]] l IH]; intros w0 H; simpl; [lra|].
+  inversion H as [|? ? Hr Hl]; subst. simpl in Hr.
+  destruct (zipp_axpy_R (sg * a) w0 row x (eq_sym Hr)) as [L E].
+  rewrite IH.
+  - rewrite E. ring.
+  - rewrite L. exact Hl.
+Qed.
+
+Theorem linear_hyperplane_spec_l : forall (sign : list R) (rows : list (list R)) (alpha x : list R) (d : nat),
+  Forall (fun r => length r = d) rows ->
+  weighted_sum_linear oR (hyperplane_of oR sign rows alpha d) x
+  = Rsum (map (fun e => fst e * snd (snd e) * Rdot (fst (snd e)) x) (combine sign (combine rows alpha))).
+Proof.
+  intros sign rows alpha x d H. rewrite weighted_sum_linear_R. unfold hyperplane_of. cbn [mul add zero oR].
+  rewrite hyperplane_fold_R.
+  - rewrite Rdot_zero_l. lra.
+  - rewrite repeat_length. apply Forall_forall. intros [sg [row a]] Hin. simpl.
+    apply in_combine_r in Hin. apply in_combine_l in Hin. rewrite Forall_forall in H. apply H; exact Hin.
+Qed.
